@@ -86,9 +86,38 @@ def shape_to_doc(forest, own_names):
     return [conv(t) for t in forest]
 
 
+# FAILURE PATHS: documents on which a parser instance fails - inside nested namespaces, with the parser's own error and with
+# the identifier-validation error - before the SAME instance is given the document under test
+FAILING_FIRST = {
+    'after-refusal': [['ns', ['Q'], [['ns', ['R', 'S'], [['enum', 'Fine', ['F']],
+                                                          ['junk', {'<class>': 'component', 'name': D.sn(['Broken'])}]]]]]],
+    'after-bad-identifier': [['enum', 'Early', ['E']], ['ns', ['Q'], [['ns', ['R'], [
+        ['junk', {'<class>': 'enum', 'name': D.sn(['Not-An-Identifier']), 'fields': []}]]]]]],
+}
+_REUSE = {}
+
+
 def parse(doc_json_text, verbose=False):
     from dznpy.json_ast import DznJsonAst  # pylint: disable=import-outside-toplevel
     with contextlib.redirect_stdout(io.StringIO()):
+        if verbose in FAILING_FIRST:
+            import os  # pylint: disable=import-outside-toplevel
+            import tempfile  # pylint: disable=import-outside-toplevel
+            parser = DznJsonAst(json.dumps(D.to_json(FAILING_FIRST[verbose])))
+            try:
+                parser.process()
+                raise AssertionError('the failing document was accepted')
+            except AssertionError:
+                raise
+            except Exception as exc:  # pylint: disable=broad-except
+                _REUSE['kept'] = exc          # the caller keeps the exception (and its traceback) alive
+            if 'path' not in _REUSE or _REUSE.get('pid') != os.getpid():
+                _REUSE['dir'] = tempfile.mkdtemp(prefix='vf_c05r_')
+                _REUSE['path'] = os.path.join(_REUSE['dir'], 'doc.json')
+                _REUSE['pid'] = os.getpid()
+            with open(_REUSE['path'], 'w', encoding='utf-8') as fh:
+                fh.write(doc_json_text)
+            return parser.load_file(_REUSE['path']).process()
         if verbose == 'positional':
             return DznJsonAst(doc_json_text, True).process()       # REPRESENTATION: the flag given positionally
         return DznJsonAst(doc_json_text, verbose=verbose).process()
@@ -168,6 +197,13 @@ def judge(case):
     return out
 
 
+def cleanup_reuse():
+    if 'dir' in _REUSE:
+        import shutil  # pylint: disable=import-outside-toplevel
+        shutil.rmtree(_REUSE.pop('dir'), ignore_errors=True)
+        _REUSE.clear()
+
+
 def payload_docs():
     """(B) payload space."""
     # ports
@@ -239,6 +275,13 @@ def payload_docs():
     # ranges, fields, data
     for lo, hi in itertools.product((-2, 0, 3), repeat=2):
         yield [['subint', 'S', lo, hi]]
+    # EDGES of the integer domain: bounds that a double cannot hold exactly, the 64-bit limits
+    big = [2 ** 53 - 1, 2 ** 53, 2 ** 53 + 1, 2 ** 53 + 2, 1234567890123456789, 2 ** 63 - 1, 2 ** 63, 2 ** 64 - 1, 10 ** 15 + 1]
+    for val in big:
+        yield [['subint', 'S', 0, val]]
+        if val < 2 ** 63:
+            yield [['subint', 'S', -val, val]]
+            yield [['subint', 'S', -val - 1, -1]] if val + 1 <= 2 ** 63 else [['subint', 'S', -val, -1]]
     for n in range(0, 4):
         yield [['enum', 'E', ['A', 'B', 'C'][:n]]]
     yield [['enum', 'E', ['A', 'A']]]
@@ -300,11 +343,15 @@ def work(job):
                 _one(case, part)
                 _one(dict(case, verbose=True), part)
                 _one(dict(case, verbose='positional'), part)
+                if not wrap:
+                    for form in FAILING_FIRST:
+                        _one(dict(case, verbose=form), part)
                 # REPRESENTATION: the same document with the keys of every object reversed / with extra keys
                 for form in ('reversed', 'extra', 'reversed+extra'):
                     _one(dict(case, form=form), part)
                 if k % 701 == 1:
                     part.sample(case)
+    cleanup_reuse()
     return part
 
 
